@@ -8,7 +8,7 @@
 (* this observable projection and all actors finish.                              *)
 EXTENDS SendRace, Json, IOUtils, TLCExt
 Traces == ndJsonDeserialize(IOEnv.TRACE_FILE)
-ASSUME \A t \in 1..Len(Traces) : TLCSet(t, 0)
+ASSUME \A t \in 1..Len(Traces) : TLCSet(t, 0) /\ TLCSet(t + 100000, 0)
 VARIABLES tid, pos
 tvars == <<vars, tid, pos>>
 N == Len(Traces[tid].ev)
@@ -38,7 +38,11 @@ TInit == Init /\ tid \in 1..Len(Traces) /\ pos = 1
 TSpec == TInit /\ [][TNext]_tvars
 AllDone == spc = "idle" /\ queue = <<>> /\ lpc = "done" /\ upc = "done" /\ kpc = "idle"
 \* a trace is accepted when every event is consumed and every actor can finish
-Track == (pos = N + 1 /\ AllDone /\ nextmsg = Traces[tid].nproduced + 1 /\ Len(dropped) = Traces[tid].ndropped) => TLCSet(tid, 1)
+Accepting == pos = N + 1 /\ AllDone /\ nextmsg = Traces[tid].nproduced + 1 /\ Len(dropped) = Traces[tid].ndropped
+Track == /\ (Accepting => TLCSet(tid, 1))
+         \* C20 (AtMostOneLiveLink under interleavings): remember accepted traces that end with an orphaned connection
+         /\ ((Accepting /\ kpend = 0 /\ ~NoOrphanedConnection) => TLCSet(tid + 100000, 1))
 Rejected == {t \in 1..Len(Traces) : TLCGet(t) # 1}
-Post == PrintT(<<"REJECTEDSET", Rejected>>)
+Orphans == {t \in 1..Len(Traces) : TLCGet(t + 100000) = 1}
+Post == PrintT(<<"REJECTEDSET", Rejected>>) /\ PrintT(<<"ORPHANSET", Orphans>>)
 =============================================================================
